@@ -5,6 +5,7 @@ package main
 import (
 	"fmt"
 	"math/rand"
+	"regexp"
 	"sort"
 	"strings"
 	"time"
@@ -55,6 +56,7 @@ func checkC01(c *Ctx) {
 	c.Cov("excluded_features", featureKey(off))
 	n := c.Pick(1500, 40000)
 	var cases []semCase
+	extended := map[int]bool{} // programs of the extended fragment (library calls): deviations are reported, not verdicts
 	featCount := map[string]int{}
 	for i := 0; i < n; i++ {
 		g := NewGen(rand.New(rand.NewSource(c.Seed*1000003 + int64(i))))
@@ -78,7 +80,6 @@ func checkC01(c *Ctx) {
 	// extended fragment (not part of C01's statement, which is about the core language): programs that also call the modelled
 	// library (GrolSem ExtSigs: int, round, floor, ceil, trunc, sqrt, min, max, split, join, runes, rune_len, trim*, abs, keys).
 	// Disagreements there are reported as EXTENDED-DEVIATION lines and in the evidence, never as a C01 violation.
-	extended := map[int]bool{}
 	nLib := c.Pick(500, 15000)
 	libFeat := map[string]int{}
 	for i := 0; i < nLib; i++ {
@@ -152,6 +153,9 @@ func checkC01(c *Ctx) {
 			continue
 		}
 		groups[sc.Group]++
+		if reLibCall.MatchString(src) {
+			extended[n+i] = true // calls the library: outside C01's statement (core language), reported as extended-fragment deviation only
+		}
 		cases = append(cases, semCase{ID: n + i, Src: src, Prog: prog, Obs: o, Meta: map[string]any{"features": []string{sc.Group}}})
 		c.Case(src, true)
 	}
@@ -199,6 +203,9 @@ func checkC01(c *Ctx) {
 	c.Cov("fuel_exhausted_not_counted", fuel)
 	c.Cov("extended_fragment", map[string]any{"programs": extN, "deviations": extBad})
 }
+
+// a call to an extension function or to a grol-defined function of the root environment
+var reLibCall = regexp.MustCompile(`\b(sqrt|floor|ceil|trunc|round|runes|rune_len|split|join|trim|trim_left|trim_right|min|max|int|abs|keys|type|sprintf|printf|str|json|eval|format)\(`)
 
 func replayC01(rp map[string]any) (bool, string) {
 	src, _ := rp["src"].(string)
